@@ -1317,3 +1317,30 @@ package queue
 //@   ensures [C12:a_refused_enqueue_commits_nothing_so_its_eviction_is_rolled_back] result != nil ==> durable == old(durable) + (pgPruned - old(pgPruned))
 //@   ensures [C01:nil_implies_committed] result == nil ==> durable > old(durable)
 //@   ensures [C01:no_transaction_left_open] s != nil ==> !txOpen && txPending == 0
+
+// ---- Postgres dequeue: sweep, candidate selection and leasing in one transaction; handed out only after COMMIT ----
+//@ func decodeStringMapJSON
+//@   trusted
+//@ func clampSliceCap
+//@   ensures [C05:clamped_into_0_max] (size <= 0 ==> result == 0) && (size > 0 && (max <= 0 || size <= max) ==> result == size) && (size > 0 && max > 0 && size > max ==> result == max)
+//@ func (*PostgresStore).requeueExpiredLeasesTx
+//@   requires tx != nil
+//@   modifies txPending
+//@   calls database/sql.(*Tx).ExecContext requires [C05:expired_leases_are_requeued_as_of_the_given_clock] arg2 == "\nUPDATE queue_items\nSET state = $1, lease_id = NULL, lease_until = NULL, next_run_at = $2, dead_reason = NULL\nWHERE state = $3\n  AND lease_until IS NOT NULL\n  AND lease_until <= $2\n" && nvarargs == 3 && vararg0 == "queued" && vararg1 == now && vararg2 == "leased"
+//@   ensures txPending >= old(txPending)
+//@ func (*PostgresStore).dequeueOnce$1
+//@   requires tx != nil
+//@   modifies txOpen, txPending
+//@   ensures (committed ==> txOpen == old(txOpen) && txPending == old(txPending)) && (!committed ==> !txOpen && txPending == 0)
+//@ func (*PostgresStore).dequeueOnce
+//@   requires s != nil && s.db != nil && !txOpen && txPending == 0 && leaseTTL > 0
+//@   modifies durable, txOpen, txPending, elems(Envelope)
+//@   loop 1 invariant [scanning_inside_the_transaction] txOpen && durable == old(durable) && !committed
+//@   loop 2 invariant [leasing_inside_the_transaction] txOpen && durable == old(durable) && !committed && rangeindex < len(items) && txPending >= rangeindex + 1 && forall k int :: 0 <= k && k <= rangeindex ==> items[k].State == StateLeased && items[k].LeaseUntil == leaseUntil && items[k].NextRunAt == leaseUntil && items[k].LeaseID != ""
+//@   calls requeueExpiredLeasesTx requires [C05:the_sweep_runs_inside_the_dequeue_transaction_as_of_its_clock] txOpen && arg3 == now
+//@   calls database/sql.(*Tx).QueryContext requires [C05:candidates_are_queued_rows_of_the_route_and_target_that_are_due_oldest_first_up_to_the_batch] txOpen && arg2 == "\nSELECT id, route, target, state, received_at, attempt, next_run_at,\n       payload, headers_json, trace_json, dead_reason, schema_version\nFROM queue_items\nWHERE route = $1\n  AND target = $2\n  AND state = $3\n  AND next_run_at <= $4\nORDER BY next_run_at ASC, received_at ASC, id ASC\nLIMIT $5\nFOR UPDATE SKIP LOCKED\n" && nvarargs == 5 && vararg0 == req.Route && vararg1 == req.Target && vararg2 == "queued" && vararg3 == now && vararg4 == batch && batch >= 1 && batch <= 100
+//@   calls database/sql.(*Tx).ExecContext requires [C03:a_candidate_is_leased_from_state_queued_with_attempt_plus_one_until_now_plus_ttl] txOpen && arg2 == "\nUPDATE queue_items\nSET state = $1, attempt = attempt + 1, lease_id = $2, lease_until = $3, next_run_at = $3, dead_reason = NULL\nWHERE id = $4\n  AND state = $5\n" && nvarargs == 5 && vararg0 == "leased" && vararg1 == leaseID && leaseID != "" && vararg2 == leaseUntil && vararg3 == items[i].ID && vararg4 == "queued"
+//@   ensures [C03:messages_are_handed_out_only_after_their_leases_committed] result1 == nil && len(result0.Items) > 0 ==> !txOpen && txPending == 0 && durable > old(durable)
+//@   ensures [C03:nothing_is_handed_out_on_error] result1 != nil ==> len(result0.Items) == 0 && durable == old(durable)
+//@   ensures [C03:handed_out_messages_carry_their_lease] result1 == nil ==> forall k int :: 0 <= k && k < len(result0.Items) ==> result0.Items[k].State == StateLeased && result0.Items[k].LeaseID != "" && result0.Items[k].LeaseUntil == result0.Items[k].NextRunAt
+//@   ensures [C01:no_transaction_left_open] !txOpen && txPending == 0
